@@ -323,7 +323,7 @@ func newEventFromUntrustedJSONV1(eventJSON []byte, roomVersion IRoomVersion) (PD
 		}
 	}
 
-	if err := json.Unmarshal(eventJSON, res); err != nil {
+	if err := unmarshalExactFields(eventJSON, res); err != nil {
 		return nil, err
 	}
 
